@@ -897,6 +897,16 @@ class Normaliser:
                 cnt = self._clone(strip(args[1]))
             if src is None or dst is None:
                 return None
+            if src[0] == "adj" and callee == "std::copy" and dst[0] in ("vec", "ptr"):
+                # adjacency list copied to an indexed destination: k = 0; for(it : list) { d[k] = *it; ++k; }
+                kv = {"k": "Var", "i": self._nid(), "l": line, "n": "_k", "d": _fresh_decl(), "t": T, "init": self._mk("Int", line, v="0", t=T), "synthetic": True}
+                lp = self._iter_loop(fn, line, args[0], args[1], lambda it: [
+                    assign(self._elem(fn, dst, self._ref(kv, line), line, T), self._mk("Un", line, op="*", e=self._ref(it, line), t=T)),
+                    self._mk("Un", line, op="++", e=self._ref(kv, line), t=T)])
+                if lp is None:
+                    return None
+                self.note(fn, "std::copy at line %s (adjacency list -> indexed destination) read as the loop it stands for" % line)
+                return [self._mk("Decl", line, vars=[kv]), lp]
             if src[0] == "adj":
                 if callee != "std::copy" or dst[0] != "push":
                     return None
